@@ -40,6 +40,7 @@ type Contract struct {
 	LoopMod    map[int]*Clause
 	CallAssumes []*Clause // assume at call <callee>#<k>: E because "..."
 	CallAsserts []*Clause // assert at call <callee>#<k>: E   (obligation before the call)
+	RecvAssumes []*Clause // assume received <type>: E(v)
 	Reads      *Clause // heap footprint of a pure function: fields(T) entries (nothing = no heap)
 	Preserves  *Clause // locations (usually fields(T)) left unchanged even under modifies *
 	Callbacks  map[string]*Contract // contracts of func-typed parameters
@@ -58,6 +59,8 @@ type Contract struct {
 	Line       int
 	Witnesses  map[string]*Clause
 	NoSweep    bool
+	Sequential bool // obligation: no go statement in the function
+	HoldsLock  bool // obligation: no Unlock call outside defer
 	RecvNonNil bool
 	Params     []string // optional explicit parameter names (for externals)
 	Results    []string
@@ -266,6 +269,13 @@ func ParseSpecFile(path string, pkgName string) (*SpecFile, error) {
 			cur.NonDet = true
 		case "opaque":
 			cur.Opaque = true
+		case "holdslock":
+			// the function never releases a mutex except through defer (it runs as one
+			// critical section)
+			cur.HoldsLock = true
+		case "sequential":
+			// the function starts no goroutine (what it calls runs before it continues)
+			cur.Sequential = true
 		case "nosweep":
 			cur.NoSweep = true
 		case "fuel":
@@ -438,6 +448,24 @@ func addClause(c *Contract, kind string, loop int, text, file string, line int) 
 			cl.E = e
 			cl.Text = "at call " + site + ": " + strings.TrimSpace(t)
 			c.CallAssumes = append(c.CallAssumes, cl)
+			return nil
+		}
+		if strings.HasPrefix(strings.TrimSpace(t), "received ") {
+			// assume received <elem type>: <pred over v> because "...": what every value
+			// received from a channel of that element type satisfies in this function
+			rest := strings.TrimPrefix(strings.TrimSpace(t), "received ")
+			i := strings.LastIndex(rest, ":")
+			if i < 0 {
+				return fmt.Errorf("assume received <type>: <expr>")
+			}
+			cl.Callee = strings.TrimSpace(rest[:i])
+			e, err := ParseExpr(rest[i+1:])
+			if err != nil {
+				return err
+			}
+			cl.E = e
+			cl.Text = "received " + cl.Callee + ": " + strings.TrimSpace(rest[i+1:])
+			c.RecvAssumes = append(c.RecvAssumes, cl)
 			return nil
 		}
 		e, err := ParseExpr(t)
